@@ -8,8 +8,8 @@ from harness import parse_common as PC
 from harness.driver import Driver, DriverError
 
 PID = 'C02'
-THEOREMS = []
-MODULES = []
+THEOREMS = ['PyDBML.C02.sticky_roundtrip_partial', 'PyDBML.C02.renderDb_sticky', 'PyDBML.C02.stickyNoteRule_ok']
+MODULES = ['PyDBMLProofs.Props.C02Sticky']
 
 
 def canonical_ref_order(spec):
@@ -285,12 +285,16 @@ def main(tier, seed):
         rule='databases from three sources: parsed from spelled documents, built through the public classes from Expressible '
              'values, and wild API-built ones (named reasons outside Expressible), plus the corpus; each rendered, re-parsed, '
              're-rendered twice. Non-trivial: >=1 table and >=2 features; distinct by content hash',
-        explanation='Oracle on the real code: content(parse(db.dbml)) == content(db) and the second and third renderings are '
+        explanation='Theorem sticky_roundtrip_partial (end to end on the smallest element: a database holding one sticky note with a '
+                    'bare name and a one-line normalised text is rendered by the renderer model and read back by the character-level '
+                    'parser model + build model to exactly the same database, by symbolic execution of the grammar model; the '
+                    'per-primitive lemmas are general). It is PARTIAL: every other element kind is decided by the oracle and the '
+                    'correspondence below, not by a theorem. Oracle on the real code: content(parse(db.dbml)) == content(db) and the second and third renderings are '
                     'byte-identical. Correspondence: the Lean DBML renderer gives the same text and the Lean parser model reads '
                     'it back to the same content. The domain predicate Expressible (harness/expressible.py, DESIGN 5.3) names '
                     'every excluded region; each has a committed witness in known_findings.json.',
         assumptions=['comments are not part of the compared content (C14)', 'inline-ness is compared as the effective Reference.inline'],
-        trusted_base=['hand-written Lean models of renderer and parser tied by this correspondence', 'harness/expressible.py'],
+        trusted_base=['Lean 4.33 kernel', 'axioms: propext, Classical.choice, Quot.sound only', 'hand-written Lean models of renderer and parser tied by this correspondence', 'harness/expressible.py'],
         kf_replay=kf_replay, proof_problems=problems)
 
 
